@@ -9,6 +9,7 @@
 package c08
 
 import (
+	"context"
 	"encoding/json"
 	"fmt"
 	"sort"
@@ -17,8 +18,11 @@ import (
 	"sync"
 	"sync/atomic"
 	"testing"
+	"testing/synctest"
+	"time"
 
 	"github.com/sirupsen/logrus"
+	pb "go.etcd.io/etcd/api/v3/etcdserverpb"
 	"go.etcd.io/etcd/api/v3/mvccpb"
 	clientv3 "go.etcd.io/etcd/client/v3"
 
@@ -276,6 +280,8 @@ func (w *world) exec(op string) string {
 			return dump(w.dir, splitList(types), splitList(names))
 		case "stress":
 			return stress(hx.KVInt(ws, "n"))
+		case "start":
+			return w.startMember(ws)
 		case "dir":
 			if !w.ordered && w.rc != nil && hasDupIds(w.rc.last) {
 				return "dupids"
@@ -369,6 +375,181 @@ func (w *world) exec(op string) string {
 		}
 		return "bad-op"
 	})
+}
+
+// ---------------------------------------------------------------- StartMember against an in-memory etcd
+
+// In-memory stand-ins for the three clientv3 interfaces StartMember touches.  Get returns the
+// initial listing; the watcher delivers one response as soon as (a) the watch has been opened
+// and (b) the first publication is under way; KeepAlive never answers.
+type memKV struct {
+	clientv3.KV
+	listing []*mvccpb.KeyValue
+}
+
+func (k *memKV) Get(ctx context.Context, key string, opts ...clientv3.OpOption) (*clientv3.GetResponse, error) {
+	return &clientv3.GetResponse{Header: &pb.ResponseHeader{Revision: 1}, Kvs: k.listing}, nil
+}
+func (k *memKV) Put(ctx context.Context, key, val string, opts ...clientv3.OpOption) (*clientv3.PutResponse, error) {
+	return &clientv3.PutResponse{Header: &pb.ResponseHeader{Revision: 3}}, nil
+}
+func (k *memKV) Delete(ctx context.Context, key string, opts ...clientv3.OpOption) (*clientv3.DeleteResponse, error) {
+	return &clientv3.DeleteResponse{Header: &pb.ResponseHeader{Revision: 4}}, nil
+}
+
+type memLease struct {
+	clientv3.Lease
+	mu  sync.Mutex
+	chs []chan *clientv3.LeaseKeepAliveResponse
+}
+
+func (l *memLease) KeepAlive(ctx context.Context, id clientv3.LeaseID) (<-chan *clientv3.LeaseKeepAliveResponse, error) {
+	ch := make(chan *clientv3.LeaseKeepAliveResponse)
+	l.mu.Lock()
+	l.chs = append(l.chs, ch)
+	l.mu.Unlock()
+	return ch, nil
+}
+func (l *memLease) Revoke(ctx context.Context, id clientv3.LeaseID) (*clientv3.LeaseRevokeResponse, error) {
+	return &clientv3.LeaseRevokeResponse{}, nil
+}
+func (l *memLease) closeAll() {
+	l.mu.Lock()
+	for _, ch := range l.chs {
+		close(ch)
+	}
+	l.chs = nil
+	l.mu.Unlock()
+}
+
+type memWatcher struct {
+	clientv3.Watcher
+	release <-chan struct{}
+	resp    *clientv3.WatchResponse
+	once    sync.Once
+}
+
+func (w *memWatcher) Watch(ctx context.Context, key string, opts ...clientv3.OpOption) clientv3.WatchChan {
+	ch := make(chan clientv3.WatchResponse, 1)
+	go func() {
+		defer close(ch)
+		w.once.Do(func() {
+			if w.resp == nil {
+				return
+			}
+			select {
+			case <-w.release:
+				ch <- *w.resp
+			case <-ctx.Done():
+			}
+		})
+		<-ctx.Done()
+	}()
+	return ch
+}
+
+// holdCluster is a directory sink whose FIRST store is slow: the goroutine that publishes the
+// initial topology is held between computing it and storing it until a second publication has
+// been stored or 500ms (virtual) have passed.  With the code's order (publish, then start the
+// watch) nobody else can publish meanwhile and the hold just times out.
+type holdCluster struct {
+	recCluster
+	mu           sync.Mutex
+	calls        int
+	firstEntered chan struct{}
+	secondDone   chan struct{}
+	stored       []string
+}
+
+func (c *holdCluster) UpdateClusterTopology(ms []*cluster.Member) {
+	c.mu.Lock()
+	c.calls++
+	n := c.calls
+	c.mu.Unlock()
+	if n == 1 {
+		close(c.firstEntered)
+		select {
+		case <-c.secondDone:
+		case <-time.After(500 * time.Millisecond):
+		}
+	}
+	c.mu.Lock()
+	c.dir.UpdateClusterTopology(ms)
+	c.stored = append(c.stored, showPub(ms))
+	c.last = ms
+	c.mu.Unlock()
+	if n == 2 {
+		close(c.secondDone)
+	}
+}
+
+var curT *testing.T
+
+// startMember runs the real StartMember (listing -> publish -> watch -> register -> keep-alive)
+// in a synctest bubble and reports the member list the directory holds in the end.
+func (w *world) startMember(ws []string) string {
+	if w.rc == nil {
+		return "noinit"
+	}
+	var listing []*mvccpb.KeyValue
+	resp := &clientv3.WatchResponse{Header: pb.ResponseHeader{Revision: 2}}
+	after := false
+	for _, t := range ws[1:] {
+		if t == "|" {
+			after = true
+			continue
+		}
+		if !after {
+			b, ok := nodeJSON(t)
+			if !ok {
+				return "bad-op"
+			}
+			id := strings.SplitN(t, ";", 2)[0]
+			listing = append(listing, &mvccpb.KeyValue{Key: []byte(key(id)), Value: b})
+			continue
+		}
+		f := strings.Split(t, "~")
+		switch {
+		case len(f) == 3 && f[0] == "P":
+			b, ok := nodeJSON(f[2])
+			if !ok {
+				return "bad-op"
+			}
+			resp.Events = append(resp.Events, &clientv3.Event{Type: mvccpb.PUT, Kv: &mvccpb.KeyValue{Key: []byte(f[1]), Value: b}})
+		case len(f) == 3 && f[0] == "B":
+			k, _ := strconv.Atoi(f[2])
+			resp.Events = append(resp.Events, &clientv3.Event{Type: mvccpb.PUT, Kv: &mvccpb.KeyValue{Key: []byte(f[1]), Value: badValues[k%len(badValues)]}})
+		case len(f) == 2 && f[0] == "D":
+			resp.Events = append(resp.Events, &clientv3.Event{Type: mvccpb.DELETE, Kv: &mvccpb.KeyValue{Key: []byte(f[1])}})
+		default:
+			return "bad-op"
+		}
+	}
+	obs := "panic"
+	synctest.Test(curT, func(t *testing.T) {
+		c := &holdCluster{firstEntered: make(chan struct{}), secondDone: make(chan struct{})}
+		c.recCluster = recCluster{address: w.rc.address, name: w.rc.name, id: w.rc.id, state: w.rc.state,
+			services: w.rc.services, dir: app.NewCluster()}
+		lease := &memLease{}
+		wt := &memWatcher{release: c.firstEntered}
+		if len(resp.Events) > 0 {
+			wt.resp = resp
+		}
+		p := etcd.VerifNewWithClient(&clientv3.Client{KV: &memKV{listing: listing}, Lease: lease, Watcher: wt})
+		err := p.StartMember(c)
+		synctest.Wait()
+		c.mu.Lock()
+		if err != nil {
+			obs = "err"
+		} else {
+			obs = fmt.Sprintf("stores=%d final=%s", len(c.stored), strings.TrimPrefix(showPub(c.last), "pub="))
+		}
+		c.mu.Unlock()
+		p.Shutdown(true)
+		lease.closeAll()
+		synctest.Wait()
+	})
+	return obs
 }
 
 // ---------------------------------------------------------------- reader/updater smoke run
@@ -676,6 +857,20 @@ func (g *gen) randomCases(n int) {
 		if r.Intn(3) == 0 {
 			pre = append(pre, dirOp)
 		}
+		if r.Intn(4) == 0 {
+			// the whole StartMember sequence: listing, then a response right after the watch opened
+			op := "start" + strings.TrimPrefix(g.listing(nn), "list") + " |"
+			for k := r.Intn(4); k > 0; k-- {
+				e := g.event(nn, false)
+				if strings.HasPrefix(e, "X~") {
+					continue
+				}
+				op += " " + e
+			}
+			g.h.Count("op:start-member")
+			g.h.Emit(pre[0], w.exec(pre[0]))
+			g.h.Emit(op, w.exec(op))
+		}
 		ne := 1 + r.Intn(6)
 		evs := make([]string, ne)
 		for i := range evs {
@@ -843,6 +1038,7 @@ func (g *gen) exhaustive(maxLen int) {
 func silence() { logger.SetLogLevel(logrus.PanicLevel) }
 
 func TestRun(t *testing.T) {
+	curT = t
 	silence()
 	h := hx.Open()
 	defer h.Close()
@@ -873,6 +1069,7 @@ func TestRun(t *testing.T) {
 // TestExhaustive: all histories of <= VERIF_EXH events over the 10-event alphabet,
 // every batching of each, against two initial listings (thorough tier).
 func TestExhaustive(t *testing.T) {
+	curT = t
 	silence()
 	h := hx.Open()
 	defer h.Close()
